@@ -2,6 +2,7 @@
 from __future__ import annotations
 
 import ast
+import copy
 from dataclasses import dataclass, field
 from typing import Dict, List, Optional, Tuple
 
@@ -25,6 +26,7 @@ class Problem:
     constraint_why: str
     solver: Optional[str]
     solved: bool
+    ignored: List[str] = field(default_factory=list)
 
 
 @dataclass
@@ -56,8 +58,92 @@ def _num(e: ast.AST) -> Optional[float]:
     return None
 
 
+class _Subst(ast.NodeTransformer):
+    def __init__(self, binding, flags, rename):
+        self.b, self.flags, self.rename = binding, flags, rename
+
+    def visit_Name(self, n: ast.Name):
+        if n.id in self.b:
+            return copy.deepcopy(self.b[n.id])
+        if n.id in self.rename:
+            return ast.copy_location(ast.Name(id=self.rename[n.id], ctx=n.ctx), n)
+        return n
+
+    def _fold(self, t):
+        if isinstance(t, ast.Name) and t.id in self.flags:
+            return self.flags[t.id]
+        if isinstance(t, ast.UnaryOp) and isinstance(t.op, ast.Not):
+            v = self._fold(t.operand)
+            return None if v is None else (not v)
+        return None
+
+    def visit_If(self, n: ast.If):
+        v = self._fold(n.test)
+        if v is None:
+            return self.generic_visit(n)
+        out = []
+        for s_ in (n.body if v else n.orelse):
+            r = self.visit(s_)
+            out += r if isinstance(r, list) else [r]
+        return out or [ast.copy_location(ast.Pass(), n)]
+
+    def visit_IfExp(self, n: ast.IfExp):
+        v = self._fold(n.test)
+        if v is None:
+            return self.generic_visit(n)
+        return self.visit(n.body if v else n.orelse)
+
+
+def inline_solve_helper(ctx: Ctx, f: FuncInfo) -> FuncInfo:
+    """If the solve step was extracted into a package helper (called with plain arguments / constant flags), return a virtual
+    FuncInfo whose body has the helper inlined (parameters substituted, constant flags folded, `return E` -> `target = E`)."""
+    M = ctx.model
+    if any(isinstance(c, ast.Call) and norm(c.func) in ("cp.Problem", "cvxpy.Problem") for c in walk_no_nested(f.node)):
+        return f
+    for idx, st in enumerate(f.node.body):
+        if not (isinstance(st, ast.Assign) and isinstance(st.value, ast.Call)):
+            continue
+        call = st.value
+        name = call.func.attr if isinstance(call.func, ast.Attribute) else (call.func.id if isinstance(call.func, ast.Name) else None)
+        callee = None
+        if isinstance(call.func, ast.Attribute) and isinstance(call.func.value, ast.Name) and f.cls is not None and \
+                call.func.value.id in (f.self_name, f.cls.name):
+            callee = M.find_method(f.cls, name)
+        elif isinstance(call.func, ast.Name):
+            callee = f.module.functions.get(name)
+        if callee is None or not any(isinstance(c, ast.Call) and norm(c.func) in ("cp.Problem", "cvxpy.Problem") for c in walk_no_nested(callee.node)):
+            continue
+        params = callee.params[1:] if callee.kind in ("method", "classmethod") else callee.params
+        binding, flags = {}, {}
+        for pn, a in list(zip(params, call.args)) + [(k.arg, k.value) for k in call.keywords]:
+            if isinstance(a, ast.Constant) and isinstance(a.value, bool):
+                flags[pn] = a.value
+            binding[pn] = a
+        body = [x for x in callee.node.body if not (isinstance(x, ast.Expr) and isinstance(x.value, ast.Constant))]
+        if not body or not isinstance(body[-1], ast.Return) or any(isinstance(x, ast.Return) for b in body[:-1] for x in ast.walk(b)):
+            raise AnalysisError("ilp", f"{callee.qualname}: helper with several returns cannot be inlined")
+        locals_ = {t.id for x in ast.walk(callee.node) for t in ([x] if isinstance(x, ast.Name) and isinstance(x.ctx, ast.Store) else [])} - set(params)
+        caller_names = {x.id for x in ast.walk(f.node) if isinstance(x, ast.Name)}
+        rename = {n: f"{n}__h" for n in locals_ if n in caller_names}
+        tr = _Subst(binding, flags, rename)
+        new_body = []
+        for x in body[:-1]:
+            r = tr.visit(copy.deepcopy(x))
+            new_body += r if isinstance(r, list) else [r]
+        ret = tr.visit(copy.deepcopy(body[-1].value))
+        new_body.append(ast.copy_location(ast.Assign(targets=copy.deepcopy(st.targets), value=ret), body[-1]))
+        virt = copy.copy(f.node)
+        virt.body = list(f.node.body[:idx]) + new_body + list(f.node.body[idx + 1:])
+        ast.fix_missing_locations(virt)
+        vf = FuncInfo(f.qualname, f.name, virt, f.module, f.cls, f.parent, f.kind, f.decorators)
+        ctx.note(f"{f.qualname}: solve step inlined from helper {callee.qualname} with flags {flags}")
+        ctx.functions_analysed.add(callee.qualname)
+        return vf
+    return f
+
+
 def analyse(ctx: Ctx, qualname: str, rule: str) -> IlpFacts:
-    f = ctx.fn(qualname, rule)
+    f = inline_solve_helper(ctx, ctx.fn(qualname, rule))
     F = IlpFacts(f)
     sn = f.self_name
     dis_p = f.params[1]
@@ -112,18 +198,60 @@ def _problem(F: IlpFacts, c: ast.Call, branch: str) -> Problem:
             objective = t
     lower, upper = -INF, INF
     ok, why = True, ""
-    cons = resolve_local(f.node, cons) if cons is not None else None
-    if not isinstance(cons, (ast.List, ast.Tuple)):
+    elts = None
+    if isinstance(cons, ast.Name):
+        # list literal followed by unconditional .append(...) calls before the Problem is built
+        init = [v for v in assigned_value(f.node, cons.id) if isinstance(v, (ast.List, ast.Tuple))]
+        if len(init) == 1:
+            elts = list(init[0].elts)
+            for a in walk_no_nested(f.node):
+                if isinstance(a, ast.Call) and isinstance(a.func, ast.Attribute) and a.func.attr in ("append",) and norm(a.func.value) == cons.id \
+                        and (a.lineno, a.col_offset) < (c.lineno, c.col_offset):
+                    guards = [g for g in enclosing(f.node, a, (ast.If, ast.For, ast.While))]
+                    if guards:
+                        ok, why = False, f"constraint `{norm(a.args[0])}` is appended conditionally"
+                    elts.append(a.args[0])
+    else:
+        cons = resolve_local(f.node, cons) if cons is not None else None
+        if isinstance(cons, (ast.List, ast.Tuple)):
+            elts = list(cons.elts)
+    ignored = []
+    aggregates = []
+    if elts is None:
         ok, why = False, "constraints are not a literal list"
     else:
-        if not cons.elts:
+        if not elts:
             ok, why = False, "empty constraint list"
-        for e in cons.elts:
+        for e in elts:
             e = resolve_local(f.node, e)
+            # bounds on the boolean variable itself do not constrain A @ x
+            if isinstance(e, ast.Compare) and len(e.ops) == 1 and ((norm(e.left) == F.x and _num(e.comparators[0]) is not None) or
+                                                                   (norm(e.comparators[0]) == F.x and _num(e.left) is not None)):
+                ignored.append(norm(e))
+                continue
             if not (isinstance(e, ast.Compare) and len(e.ops) == 1):
                 ok, why = False, f"constraint `{norm(e)}` is not a single comparison"
                 continue
             l, r, op = e.left, e.comparators[0], e.ops[0]
+            # aggregate constraint  cp.sum(A @ x) <= K : together with A@x >= 1 it forces A@x == 1 iff K is the number of units (rows of A)
+            agg = None
+            for side, other, le in ((l, r, isinstance(op, ast.LtE)), (r, l, isinstance(op, ast.GtE))):
+                if isinstance(side, ast.Call) and norm(side.func) in ("cp.sum", "cvxpy.sum", "sum") and len(side.args) == 1 and \
+                        _lin_expr_kind(f, side.args[0], F.A, F.x) == "Ax" and le:
+                    agg = resolve_local(f.node, other)
+            if agg is not None:
+                kt = norm(agg)
+                sizes = F.sizes
+                units = {f"{F.A}.shape[0]", f"len({F.A})", f"np.sum({sizes})", f"{sizes}.sum()", f"{f.self_name}.num_units", f"sum({sizes})"}
+                cands = {f"len({F.disorders})", f"len({F.cands})", f"{F.A}.shape[1]", f"{F.disorders}.shape[0]", f"len({F.x})"}
+                if kt in units:
+                    aggregates.append(("units", norm(e)))
+                elif kt in cands:
+                    aggregates.append(("candidates", norm(e)))
+                    ignored.append(norm(e) + "  [sum bounded by the number of CANDIDATES, not of units: slack as soon as a candidate holds 2+ units]")
+                else:
+                    ok, why = False, f"aggregate constraint `{norm(e)}`: cannot tell whether its bound is the number of units"
+                continue
             lk, rk = _lin_expr_kind(f, l, F.A, F.x), _lin_expr_kind(f, r, F.A, F.x)
             if lk == "Ax" and _num(r) is not None:
                 cval, side = _num(r), "left"
@@ -140,6 +268,8 @@ def _problem(F: IlpFacts, c: ast.Call, branch: str) -> Problem:
                 lower = max(lower, cval)
             else:
                 ok, why = False, f"operator of `{norm(e)}` is not one of ==, <=, >="
+    if any(k == "units" for k, _ in aggregates) and lower >= 1.0:
+        upper = min(upper, 1.0)       # every entry >= 1 and the total <= number of entries  =>  every entry == 1
     # solve(solver=...)
     solver, solved = None, False
     par = enclosing(f.node, c, (ast.Call,))
@@ -158,11 +288,14 @@ def _problem(F: IlpFacts, c: ast.Call, branch: str) -> Problem:
                     solved = True
                     sv = kwarg(p, "solver")
                     solver = norm(sv) if sv is not None else None
-    return Problem(c, branch, sense, objective, lower, upper, ok, why, solver, solved)
+    pr = Problem(c, branch, sense, objective, lower, upper, ok, why, solver, solved)
+    pr.ignored = ignored
+    return pr
 
 
 def interval_txt(p: Problem) -> str:
-    return f"{p.lower} <= A@x <= {p.upper}"
+    extra = f" (constraints that do not bound A@x elementwise: {p.ignored})" if getattr(p, "ignored", None) else ""
+    return f"{p.lower} <= A@x <= {p.upper}{extra}"
 
 
 # ---------------------------------------------------------------------------------------------
@@ -273,12 +406,18 @@ def check_decoding(ctx: Ctx, F: IlpFacts, rules: Dict[str, str], result_class: s
         chk("shared-decoding", not inside, s, "decoding happens after the try/except: shared by both solver back-ends",
             "decoding is inside one solver branch only")
     chosen = dis = None
+    aliases = {ids}
+    for _ in range(3):
+        for a in walk_no_nested(f.node):
+            if isinstance(a, ast.Assign) and isinstance(a.targets[0], ast.Name) and isinstance(a.value, ast.Name) and a.value.id in aliases:
+                aliases.add(a.targets[0].id)
     for a in walk_no_nested(f.node):
         if isinstance(a, (ast.Assign, ast.AnnAssign)):
             tg = a.targets[0] if isinstance(a, ast.Assign) else a.target
-            if a.value is not None and norm(a.value) == f"{F.cands}[{ids}]":
+            if a.value is not None and norm(a.value) in {f"{F.cands}[{i}]" for i in aliases}:
                 chosen = norm(tg)
-            if a.value is not None and norm(a.value) == f"{F.disorders}[{ids}]":
+                used_c = norm(a.value)[len(F.cands) + 1:-1]
+            if a.value is not None and norm(a.value) in {f"{F.disorders}[{i}]" for i in aliases}:
                 dis = norm(tg)
     chk("same-ids", chosen is not None and dis is not None, s, "the same id vector selects the candidates and their disorders",
         "selected candidates and selected disorders are not indexed by the same ids")
